@@ -327,6 +327,13 @@ pub async fn run_config(case: &Value, path: &str) -> Value {
             return o;
         }
     }
+    if case.get("dump").and_then(|x| x.as_bool()).unwrap_or(false) {
+        // the parsed configuration as stored (every option, defaults filled in by serde)
+        o["config"] = serde_json::to_value(pgcat::config::get_config()).unwrap_or(Value::Null);
+    }
+    if case.get("parse_only").and_then(|x| x.as_bool()).unwrap_or(false) {
+        return o;
+    }
     if case.get("show").and_then(|x| x.as_bool()).unwrap_or(false) {
         // main.rs calls config.show() right after binding the listener
         // (no logger is installed: the records go nowhere, but with the level raised the
